@@ -700,15 +700,21 @@ int tls_client_key_shares_from_bytes(SM2_Z256_POINT *sm2_point, const uint8_t **
 	const uint8_t *key_shares;
 	size_t key_shares_len;
 
-	tls_uint16array_from_bytes(&key_shares, &key_shares_len, in, inlen);
+	if (tls_uint16array_from_bytes(&key_shares, &key_shares_len, in, inlen) != 1) {
+		error_print();
+		return -1;
+	}
 
 	while (key_shares_len) {
 		uint16_t group;
 		const uint8_t *key_exch;
 		size_t key_exch_len;
 
-		tls_uint16_from_bytes(&group, &key_shares, &key_shares_len);
-		tls_uint16array_from_bytes(&key_exch, &key_exch_len, &key_shares, &key_shares_len);
+		if (tls_uint16_from_bytes(&group, &key_shares, &key_shares_len) != 1
+			|| tls_uint16array_from_bytes(&key_exch, &key_exch_len, &key_shares, &key_shares_len) != 1) {
+			error_print();
+			return -1;
+		}
 
 		if (key_exch_len != 65) {
 			error_print();
@@ -717,7 +723,10 @@ int tls_client_key_shares_from_bytes(SM2_Z256_POINT *sm2_point, const uint8_t **
 
 		switch (group) {
 		case TLS_curve_sm2p256v1:
-			sm2_z256_point_from_octets(sm2_point, key_exch, key_exch_len);
+			if (sm2_z256_point_from_octets(sm2_point, key_exch, key_exch_len) != 1) {
+				error_print();
+				return -1;
+			}
 			break;
 		default:
 			error_print();
